@@ -36,7 +36,7 @@ func (l *expLogger) Append(cm commit.Commit) error {
 				for r.Next() {
 					switch r.Type {
 					case commit.Insert:
-						l.w.T.Log(Ev{"e": "xins", "c": l.name, "o": int(r.Index())})
+						l.w.T.Log(Ev{"e": "xins", "c": l.name, "o": int(r.Index()), "at": now})
 					case commit.Delete:
 						l.w.T.Log(Ev{"e": "xdel", "c": l.name, "o": int(r.Index()), "at": now})
 					}
@@ -207,7 +207,12 @@ func RunExpire(seed int64, p ExpProfile) (out []Ev) {
 	var short, long, none, ext []uint32
 	for i := 0; i < p.Rows; i++ {
 		var ttl time.Duration
-		k := rnd.Intn(6)
+		k := rnd.Intn(7)
+		if k == 6 { // an explicit "never": a zero time-to-live stores a zero deadline, which is no deadline
+			o, _ := P.Insert(func(r column.Row) error { r.SetInt("a", i); r.SetTTL(0); return nil })
+			none = append(none, o)
+			continue
+		}
 		if k == 5 { // inserted with a short TTL extended in the insert itself: far (stays) or a little (goes later)
 			if rnd.Intn(2) == 0 {
 				long = append(long, insertExtended(time.Duration(100+rnd.Intn(100))*time.Millisecond, time.Hour))
@@ -295,7 +300,22 @@ func RunExpire(seed int64, p ExpProfile) (out []Ev) {
 				P.Insert(func(r column.Row) error { t0 := time.Now(); r.SetTTL(ttl); logSet(r.Index(), t0, ttl); return nil })
 			}
 		case 2:
-			if len(long) > 0 {
+			if len(long) > 0 && rnd.Intn(3) == 0 {
+				// the time-to-live of a row is cleared (zero: never expires), through the row or through the accessor
+				// (from here on it is a row without time-to-live: it is not extended any more - Extend on a row that has no
+				// deadline gives it one in 1970, DESIGN 21.7)
+				k := rnd.Intn(len(long))
+				o := long[k]
+				long = append(long[:k], long[k+1:]...)
+				none = append(none, o)
+				if rnd.Intn(2) == 0 {
+					P.QueryAt(o, func(r column.Row) error { r.SetTTL(0); return nil })
+				} else {
+					P.Query(func(txn *column.Txn) error {
+						return txn.QueryAt(o, func(column.Row) error { txn.TTL().Set(0); return nil })
+					})
+				}
+			} else if len(long) > 0 {
 				extend(long[rnd.Intn(len(long))], time.Minute)
 			}
 		case 3: // a late row WITHOUT time-to-live: it usually takes the offset of a row that has expired, and must stay
